@@ -23,6 +23,10 @@ CLAIMED = {
             "PCR base/ext and PTS/DTS values drawn from the boundary-bit set and uniformly; written bytes compared with the ISO layout (reserved/marker bits 1), canary bytes after the field, round trip, invariance of decoding under every subset of non-value bits, agreement of gots.ExtractTime, pes.ExtractTime and the reference on arbitrary bytes, end to end through adaptation-field PCR/OPCR and PES headers.",
             "Trusted: ref.EncodePCR/EncodePTS/DecodePCR/DecodePTS (bit tables written from ISO 13818-1). The 4-bit PTS prefix is not asserted.",
             "DESIGN.md section 4 C04"),
+    "C05": ("fuzzing and property-based testing for totality: rapid-generated (entry point, input) cases from three input families (reference-built well-formed, structurally mutated, arbitrary) + a fixed hostile grid + native coverage-guided go fuzzing (structured and raw-bytes targets) in the thorough tier; oracle = no panic / returns within the watchdog budget / bounded heap / caller buffer unmodified / returned objects survive all getters, printing and re-encoding",
+            "17 entry-point groups covering every decoding entry point of packet, adaptationfield, psi, pes, ebp, scte35 and the stream readers are driven with reference-built instances, 1-3 structural mutations of them (truncation anywhere, boundary constants and +-1/2 on any byte incl. every length field, forced MID lists, 65 KiB descriptor loops) and arbitrary bytes; panics are recovered and keyed by innermost library function + statement text, non-termination and memory blow-up are observed by an in-process watchdog (20 s / 1 GiB), read-only calls must leave the input byte-identical.",
+            "Trusted: Go's recover/runtime.MemStats; thresholds are 4-6 orders of magnitude above a case's normal cost. A returned error is always acceptable; the CLI main package is not driven.",
+            "DESIGN.md section 4 C05"),
     "C06": ("property-based testing (rapid) with a reference PMT encoder, carrier and packetiser as the independent model; metamorphic over packetisations (same section, any split/pointer/stuffing/interleaving must decode identically); prefix-exhaustive check of the completion predicate; full enumeration of the table-header space",
             "Reference-built PMT sections (descriptors incl. probes, up to the 1021-byte limit) x carriers (pointer_field, preceding sections, trailing stuffing) x packetisations (every payload size 1..184, other-PID packets interleaved) are decoded through NewPMT and ReadPMT and compared field by field with the model; PmtAccumulatorDoneFunc is evaluated on every prefix (small payloads) or on all packet boundaries + neighbourhoods of section boundaries; ExtractCRC, the PSI header accessors and the TableHeader codec (all 2^20 headers) are compared with the model.",
             "Trusted: ref.PMT/Carrier/Packetise (written from ISO 13818-1 2.4.4), ref.CRC32MPEG2. Restrictions listed as assumptions in the evidence (inner section boundaries, legal packetisations for ReadPMT).",
